@@ -2,7 +2,9 @@
 FUNCS = ["Job.dependencychanged", "Dependency.check", "Scheduler.aio_registerJob", "JobDependency.status",
          "Scheduler.aio_submit", "experiment.wait.awaitcompletion", "Scheduler.aio_start"]
 LEVEL = "proof"
-TRUSTED = []
+LEVEL_TEXT = 'Deductive: every write site of Job.state replaces a final state only by a final state (exception: adoption DONE->RUNNING); dependencychanged never changes a finished state; aio_start result is DONE iff exit code 0 (or no code and the success marker / a failed file containing 0); aio_submit returns the final state, decrements the counter exactly once and before notify_all; aio_registerJob counts a re-submitted job; awaitcompletion returns only when exitMode or counter and queue are 0. Known finding (bounded native schedule): lost READY after an aborted start.'
+TRUSTED = ["liveness ('never hanging') is outside the technique", 'Job.state == UNSCHEDULED when aio_submit is entered (call site in Scheduler.submit)', 'z3 5.1 / cvc5 1.0.3 / z3 4.8.12 and the VC generator pyvc (validated by seeded changes, pre-fix replays and the CPython replay of counterexamples; not verified)', 'Python semantics of DESIGN 2.3 (mathematical ints and reals, left-to-right evaluation, no monkey-patching, assert not compiled out)', 'heap typing: declared field/parameter classes are assumed on reads and checked on writes in the functions under contract', "contracts of externals and of callees outside the list are assumed; every ('ASSUME', ...) clause is listed in DESIGN section 11"]
+LEVEL_NOTE = "liveness ('never hanging') is outside the technique; Job.state == UNSCHEDULED when aio_submit is entered (call site in Scheduler.submit)"
 
 from bounded.findings import run_c06_lost_ready
 BOUNDED = [("lost READY after an aborted start (native schedule)", run_c06_lost_ready)]
